@@ -65,12 +65,22 @@ def gate(p, iv, x, y):
     return (qp.S, qp.T, qp.SX)[k](wires=w)
 
 
+@qp.capture.subroutine
+def sub_rx(theta, w):
+    qp.RX(theta, wires=w)
+
+
+@qp.capture.subroutine
+def sub_ixx(theta, w0, w1):
+    qp.IsingXX(theta, wires=[w0, w1])
+
+
 class Builder:
     """prog, flav -> qfunc(x, y, k).  k is an integer argument that is 0 at run time: flavours add it to loop bounds and
     compare it in predicates so that bounds / conditions are dynamic values of the captured program."""
 
-    def __init__(self, prog, flav, dyn=False):
-        self.prog, self.flav, self.dyn = prog, flav, dyn
+    def __init__(self, prog, flav, dyn=False, sub=False):
+        self.prog, self.flav, self.dyn, self.sub = prog, flav, dyn, sub
         self.fuel = 4000
 
     # ------------------------------------------------------------------ expressions
@@ -109,7 +119,17 @@ class Builder:
         t = s["t"]
         K = self.k if self.dyn else 0
         if t == "do":
-            self.ev(s["c"][0][0], p + [1], iv)
+            e = s["c"][0][0]
+            g = sum(p + [1]) % 5
+            if self.sub and e["t"] == "G" and g >= 3:      # a statement that is one parametrised gate: through a subroutine
+                w = leaf_wire(p + [1], iv)
+                th = leaf_angle(p + [1], iv, self.x, self.y)
+                if g == 3:
+                    sub_ixx(th, w, (w + 1) % NW)
+                else:
+                    sub_rx(th, w)
+            else:
+                self.ev(e, p + [1], iv)
         elif t == "meas":
             if s["c"]:
                 o = self.ev(s["c"][0][0], p + [1], iv)
@@ -226,6 +246,9 @@ def describe(o):
         if o.obs is not None:
             return {"k": k, "a": [describe(o.obs)]}
         return {"k": k, "a": [], "w": _w(o.wires)}
+    if "CollectedSubroutine" in n:                    # a subroutine call stands for the operators it applies
+        inner = o.decomposition()
+        return describe(inner[0]) if len(inner) == 1 else {"k": "subroutine", "a": [describe(x) for x in inner]}
     if n & {"Adjoint", "Adjoint2"}:
         return {"k": "adj", "a": [describe(o.base)]}
     if hasattr(o, "base") and hasattr(o, "control_wires") and len(o.control_wires) > 0:
